@@ -10,6 +10,7 @@ package main
 
 import (
 	"bytes"
+	"hash/fnv"
 	"encoding/json"
 	"fmt"
 	"go/format"
@@ -22,6 +23,7 @@ import (
 	"regexp"
 	"runtime"
 	"sort"
+	"strconv"
 	"strings"
 	"sync"
 
@@ -35,10 +37,20 @@ import (
 
 var logger = slog.New(slog.NewTextHandler(io.Discard, nil))
 
-// realFormat runs the repository's formatter the way `templ fmt` does for stdin.
+// realFormat runs the repository's formatter the way `templ fmt` does for stdin when the editor names the file
+// (-stdin-filepath): with a file name the formatter also rewrites the import block (cmd/templ/imports).
+//
+// Rewriting imports runs golang.org/x/tools/imports over generated code (milliseconds per call), so one source
+// in eight (by hash: the same source is always formatted the same way) takes that path.
 func realFormat(src string) (string, error) {
 	var out bytes.Buffer
-	err := fmtcmd.Run(logger, strings.NewReader(src), &out, fmtcmd.Arguments{})
+	args := fmtcmd.Arguments{}
+	h := fnv.New32a()
+	h.Write([]byte(src))
+	if h.Sum32()%importsEvery == 0 {
+		args.StdinFilepath = "/nonexistent-verif/p/p.templ"
+	}
+	err := fmtcmd.Run(logger, strings.NewReader(src), &out, args)
 	return out.String(), err
 }
 
@@ -246,11 +258,17 @@ func openTagSpansLines(n templang.Node, loose bool) bool {
 	return loose && (n.K == "el" || n.K == "void") && len(n.Attrs) > 0
 }
 
-// curOdd is the feature mask of the odd spelling while a failure of that spelling is being attributed (0 otherwise).
-var curOdd int
+// importsEvery: one source in so many is formatted with a file name (VERIF_FMT_IMPORTS_EVERY, default 8).
+var importsEvery = func() uint32 {
+	if n, err := strconv.Atoi(os.Getenv("VERIF_FMT_IMPORTS_EVERY")); err == nil && n > 0 {
+		return uint32(n)
+	}
+	return 8
+}()
 
 // spansLines reports whether an element's children are not all on the open tag's line (IndentChildren).
-func spansLines(n templang.Node, loose bool) bool {
+// odd: feature mask of the odd spelling the source is written in (0 for the other spellings).
+func spansLines(n templang.Node, loose bool, odd int) bool {
 	if len(n.Kids) == 0 {
 		return false
 	}
@@ -258,7 +276,7 @@ func spansLines(n templang.Node, loose bool) bool {
 		return true
 	}
 	for _, k := range n.Kids {
-		if wsAfter(k) == "v" || openTagSpansLines(k, loose) || (k.K == "el" && spansLines(k, loose)) {
+		if wsAfter(k) == "v" || openTagSpansLines(k, loose) || (k.K == "el" && spansLines(k, loose, odd)) {
 			return true
 		}
 		switch k.K {
@@ -266,7 +284,7 @@ func spansLines(n templang.Node, loose bool) bool {
 			return true // always written on several lines (as in FmtLayout.tla's SpansLines)
 		}
 		// the odd spelling: Go code that gofmt splits into lines, start tags whose attribute expression spans lines
-		if curOdd != 0 && (k.K == "gocodei" && curOdd&templang.OddGoCodeTwo != 0 || templang.OddStartTagSpansLines(k, curOdd)) {
+		if odd != 0 && (k.K == "gocodei" && odd&templang.OddGoCodeTwo != 0 || templang.OddStartTagSpansLines(k, odd)) {
 			return true
 		}
 		for _, a := range k.Attrs {
@@ -278,12 +296,12 @@ func spansLines(n templang.Node, loose bool) bool {
 	return false
 }
 
-func blockish(n templang.Node, loose bool) bool {
+func blockish(n templang.Node, loose bool, odd int) bool {
 	switch n.K {
 	case "if", "for", "switch":
 		return true
 	case "el":
-		return blockNames[n.Name] || spansLines(n, loose)
+		return blockNames[n.Name] || spansLines(n, loose, odd)
 	case "void", "raw":
 		return blockNames[n.Name]
 	}
@@ -293,14 +311,18 @@ func blockish(n templang.Node, loose bool) bool {
 // separateWhereBreaksAreForced writes a line break into the source wherever the formatter would force one
 // (before block-level nodes and elements with indented children, after br/hr), so that the formatter
 // no longer changes the whitespace class between those two nodes.
-func separateWhereBreaksAreForced(loose bool) func(ns []templang.Node) []templang.Node {
-	return func(ns []templang.Node) []templang.Node { return separateForced(ns, loose) }
+func separateWhereBreaksAreForced(v templang.Variant) func(ns []templang.Node) []templang.Node {
+	odd := 0
+	if v == 3 {
+		odd = templang.OddAll
+	}
+	return func(ns []templang.Node) []templang.Node { return separateForced(ns, v == 2, odd) }
 }
 
-func separateForced(ns []templang.Node, loose bool) []templang.Node {
+func separateForced(ns []templang.Node, loose bool, odd int) []templang.Node {
 	for i := 0; i+1 < len(ns); i++ {
 		cur := ns[i]
-		forced := blockish(ns[i+1], loose) || (cur.K == "void" && (cur.Name == "br" || cur.Name == "hr"))
+		forced := blockish(ns[i+1], loose, odd) || (cur.K == "void" && (cur.Name == "br" || cur.Name == "hr"))
 		if !forced {
 			continue
 		}
@@ -375,10 +397,6 @@ func failsSrc(s string, kind string) bool {
 }
 
 func attribute(prog []templang.Node, v templang.Variant, kind string) string {
-	curOdd = 0
-	if v == 3 {
-		curOdd = templang.OddAll
-	}
 	{
 		// a call followed by something on its line: when the failure needs that adjacency, the adjacency is the
 		// root cause, whatever else (an unusual spelling of the neighbour) is needed as well
@@ -436,7 +454,7 @@ func attributeRest(prog []templang.Node, v templang.Variant, kind string) string
 		// children are indented, after br/hr) even where the source has no whitespace between the two
 		// nodes, and the generator renders that break as a space (between inline content, and anywhere
 		// inside control-flow / case / call-block bodies, whose interior whitespace nodes are kept).
-		p2 := mapLists(prog, separateWhereBreaksAreForced(v == 2))
+		p2 := mapLists(prog, separateWhereBreaksAreForced(v))
 		b2, _ := json.Marshal(p2)
 		if !bytes.Equal(b1, b2) && !failsWith(p2, v, kind) {
 			return "WriteNodes.ForcedLineBreakRendered"
@@ -448,7 +466,7 @@ func attributeRest(prog []templang.Node, v templang.Variant, kind string) string
 		if !bytes.Equal(b1, b3) && !failsWith(p3, v, kind) {
 			return "GoComment.IndentAfterLineCommentRendered"
 		}
-		p4 := mapLists(p3, separateWhereBreaksAreForced(v == 2))
+		p4 := mapLists(p3, separateWhereBreaksAreForced(v))
 		b4, _ := json.Marshal(p4)
 		if !bytes.Equal(b1, b4) && !failsWith(p4, v, kind) {
 			return "WriteNodes.ForcedLineBreakRendered+GoComment.IndentAfterLineCommentRendered"
